@@ -594,6 +594,8 @@ static void create_note (int n) {
 	}
 	if (W.note[n] == NULL) VIOL ("C19", "ctor-null", "nsync_note_new returned NULL although no allocation failed");
 	last_alloc_failed = 0;
+	/* the clock may have passed the note's own deadline while the constructor ran */
+	if (dl_ns >= 0 && dl_ns <= nsim_now_ns ()) NM[n].born_expired = 1;
 	/* an ancestor's notification may have started while the constructor ran */
 	for (a = p; a >= 0; a = NM[a].parent) {
 		if (NM[a].notify_invoked >= 0 || NM[a].inh_invoked >= 0) NM[n].late_child = 1;
